@@ -27,6 +27,9 @@ checks={
  "C16":dict(engine="E2+E1",cat="model_checking",tech=ES+"; "+MC,
    text="defaults observed on a fresh GetInstance; every Append/SendDirect history up to length 3 (4) over record sizes around the thresholds, record-time steps 0/maxWait-1/maxWait, five settings and both client behaviours (consuming / retaining) on the real sender: exactly-once, in order, decodable, RecordCount, compression iff payload >= threshold, immutability after hand-over, flush deadlines; every schedule (preemption bound 1, thorough 2) of 1-2 producers, the real background goroutine on virtual time and a stopper (after drain, or at any point): nothing accepted before the stop is left behind",
    note="virtual time; in-memory recording client; ApplyConfig switching is exercised through the hook-built settings only",ref="DESIGN.md 4 C16"),
+ "C17":dict(engine="E1+E3",cat="model_checking",tech=MC+"; exhaustive products for retention and the read window",
+   text="nine closed scenarios (1-2 logging goroutines x 1-5 calls at all levels, the rotation cycle, a clock thread carrying virtual time across midnight, rotation on/off, interval 0/10 s) on an in-memory file system whose operations are scheduling points: every schedule within preemption bound 2 (3) is run on the real logger and the files are read back (every gated line exactly once, whole, per-thread order, names, new-day placement); retention over every 1- and 2-file directory, the full 12-name directory and its one-less variants x 3 clocks x 3 keep-days x rotation; read window over 4 sizes x 6 end positions x 7 lengths x 7 names incl. traversal and absolute paths",
+   note="in-memory file system model; the 10 s loop is replaced by a cycle thread calling the same function through a verif hook",ref="DESIGN.md 4 C17"),
  "C19":dict(engine="E3",cat="exploration",tech=E3T,
    text="every day of 2000-2099 x 16 boundary instants (thorough: every second of the century): all calendar helpers equal time.Time in UTC and the unit functions equal floor((t-base)/step); every pattern up to length 4 (5) over the seven field letters and five literals x 40 instants x 6 clock answers: Parse(FormatTime(t)) agrees with t on every field present in the pattern",
    note="fields absent from a pattern come from the clock and are not compared; clock is an enumerated environment answer through the vtime seam",ref="DESIGN.md 4 C19"),
